@@ -14,7 +14,10 @@
 (* A label map is a sequence over 1..N (Grid.tla).  The matcher's label    *)
 (* map lm is a set of pairs <<ref label, pred label>>.                     *)
 (***************************************************************************)
-EXTENDS Integers, Sequences, FiniteSets, FiniteSetsExt, Rat, Grid, Metrics, EdgeCases
+EXTENDS Integers, Sequences, SequencesExt, FiniteSets, FiniteSetsExt, Rat, Grid, Metrics, EdgeCases
+
+RECURSIVE SeqOfSetG(_)
+SeqOfSetG(S) == IF S = {} THEN <<>> ELSE LET x == CHOOSE y \in S : TRUE IN <<x>> \o SeqOfSetG(S \ {x})
 
 (***************************************************************************)
 (* Phase 1 - instance approximation.                                       *)
@@ -29,13 +32,13 @@ InstParts(backend, shape, sem) ==
     THEN UNION {Components("full", shape, Sel(sem, l)) : l \in Labels(sem)}
     ELSE Components("face", shape, Fg(sem))
 
-MinOf(c) == CHOOSE x \in c : \A y \in c : x <= y
+MinOf(c) == MinInt(c)
 \* canonical numbering of a partition: by smallest voxel index
 LabelBy(parts, n) ==
+    LET ps == SortSeq(SeqOfSetG(parts), LAMBDA a, b : MinInt(a) < MinInt(b)) IN
     [v \in 1..n |->
-        IF \E c \in parts : v \in c
-        THEN LET c == CHOOSE d \in parts : v \in d IN Cardinality({d \in parts : MinOf(d) <= MinOf(c)})
-        ELSE 0]
+        LET idx == {i \in 1..Len(ps) : v \in ps[i]} IN
+        IF idx = {} THEN 0 ELSE CHOOSE i \in idx : TRUE]
 
 Approximate(backend, shape, sem) == LabelBy(InstParts(ResolveBackend(backend, shape), shape, sem), Len(sem))
 
@@ -47,14 +50,18 @@ IsCCLabelling(backend, shape, sem, inst, n) ==
        /\ Labels(inst) = 1..n
        /\ \A l \in Labels(inst) : IsConnected(kind, shape, Sel(inst, l))
        /\ \A l \in Labels(inst) : \A u, v \in Sel(inst, l) : sameClass(u, v)
-       /\ \A u, v \in Fg(inst) : (Nbr(kind, shape, u, v) /\ sameClass(u, v)) => inst[u] = inst[v]
+       /\ \A u \in Fg(inst) : \A v \in NbrsOf(kind, shape, u) \cap Fg(inst) : sameClass(u, v) => inst[u] = inst[v]
 
 (***************************************************************************)
 (* Phase 2 - matching.                                                     *)
 (***************************************************************************)
-Cands(pr, rf) == {c \in Labels(rf) \X Labels(pr) : Sel(rf, c[1]) \cap Sel(pr, c[2]) # {}}
+\* candidate pairs = pairs of labels that share a voxel (one pass over the voxels)
+Cands(pr, rf) == {<<rf[v], pr[v]>> : v \in {w \in 1..Len(pr) : pr[w] # 0 /\ rf[w] # 0}}
 
-ScoreMap(m, shape, pr, rf) == [c \in Cands(pr, rf) |-> Score(m, shape, Sel(rf, c[1]), Sel(pr, c[2]))]
+ScoreMap(m, shape, pr, rf) ==
+    LET selR == [r \in Labels(rf) |-> Sel(rf, r)]
+        selP == [p \in Labels(pr) |-> Sel(pr, p)]
+    IN [c \in Cands(pr, rf) |-> Score(m, shape, selR[c[1]], selP[c[2]])]
 
 RefsOf(lm)      == {e[1] : e \in lm}
 PredsIn(lm)     == {e[2] : e \in lm}
@@ -199,8 +206,7 @@ RelabelOK(pr, rf, mp, mr, lm) ==
     /\ FreshDistinct(pr, mp, rf) /\ CoarsenedBy(pr, mp, rf, lm)
 
 \* canonical relabelling: unmatched predictions get max(ref)+1, +2, ... in label order
-RECURSIVE MaxSet(_)
-MaxSet(S) == CHOOSE x \in S : \A y \in S : y <= x
+MaxSet(S) == MaxInt(S)
 Relabel(pr, rf, lm) ==
     LET base == IF Labels(rf) = {} THEN 0 ELSE MaxSet(Labels(rf))
         un   == Labels(pr) \ PredsIn(lm)
